@@ -1843,6 +1843,25 @@ impl Element {
             }
         }
 
+        // check the compatibility of the character data: an enum value might not exist in the target version
+        if let Some(cdata_spec) = elemtype_new.chardata_spec() {
+            let element = self.0.read();
+            for content_item in &element.content {
+                if let ElementContent::CharacterData(cdata @ CharacterData::Enum(_)) = content_item {
+                    let (is_compatible, value_version_mask) =
+                        cdata.check_version_compatibility(cdata_spec, target_version);
+                    if !is_compatible {
+                        // the element is not allowed with this content
+                        compat_errors.push(CompatibilityError::IncompatibleElement {
+                            element: self.clone(),
+                            version_mask: value_version_mask,
+                        });
+                    }
+                    overall_version_mask &= value_version_mask;
+                }
+            }
+        }
+
         // check the compatibility of all sub-elements
         for sub_element in self.sub_elements() {
             if sub_element.0.read().file_membership.is_empty() || sub_element.0.read().file_membership.contains(file) {
